@@ -11,6 +11,7 @@ from simkit.core import VERIF_DIR, EventLog, HarnessError, ddmin_lists, digest
 from simkit.simtime import CLOCK, EPOCH
 
 PROP = "C04"
+ISOLATE_RUNS = True  # every run in a forked copy of the worker (simkit.core.run_one)
 LEVEL = "exploration"
 BUDGET_S = {"quick": 420, "thorough": 1800}
 CHUNK = 10
@@ -74,6 +75,10 @@ def worker_init() -> None:
     S.CertBlockV1 = CertBlockV1
     S.c10 = c10sim
     validate_model()
+    # runs are executed in forked copies of this process: initialise everything that is lazy on first use here
+    for i, fam in ((0, "control"), (1, "faulted"), (2, "faulted"), (3, "control"), (4, "faulted"), (5, "faulted")):
+        Run(gen_plan(fam, i, random.Random(2000 + i), "quick")).execute()
+    CLOCK.reset()
 
 
 def validate_model() -> None:
@@ -454,12 +459,36 @@ class Run:
 
     def execute(self) -> dict:  # noqa: C901
         p = self.plan
+        if p.get("prelude"):
+            # another image was built and exported in this process before: nothing of it may leak into this one
+            sub = Run(p["prelude"])
+            sub.execute()
+            self.records += sub.records
+            self.log.add("prelude", sub.log.digest())
+            self.probe("image_built_after_another_in_the_same_process")
         CLOCK.reset()
         CLOCK.advance(p.get("t0_us", 0))
         img = self.build()
         self.sig_len = 0
         if self.signed:
             self.sig_len = 512 if p["key"].get("bits") == 4096 else 256
+        # the history of the object before the export that is judged below: read-only calls and earlier exports
+        # (every exported file is one "SPSDK builds", so each goes through the fault-free check)
+        for j, call in enumerate(p.get("pre") or []):
+            try:
+                if call == "str":
+                    str(img)
+                elif call == "raw_size":
+                    _ = img.raw_size
+                elif call == "update" and hasattr(img, "update"):
+                    img.update()
+                elif call == "export":
+                    early = img.export()
+                    self.probe("exported_more_than_once")
+                    self.check_clean(early, f"export #{j + 1} of the object (an earlier export)")
+            except S.SPSDKError as exc:
+                self.violation("export-raises", f"pre:{call}:{type(exc).__name__}", f"{call} before the export raised {type(exc).__name__}: {exc}")
+            self.log.add("pre", call)
         try:
             data = img.export()
         except S.SPSDKError as exc:
@@ -696,7 +725,7 @@ def gen_ver(rng: random.Random) -> str:
     return f"{part()}.{part()}.{part()}"
 
 
-def gen_plan(family: str, i: int, rng: random.Random, tier: str) -> dict:
+def gen_plan(family: str, i: int, rng: random.Random, tier: str, _depth: int = 0) -> dict:
     from c10 import sim as c10sim
 
     version = rng.choice(["2.0", "2.1", "2.1"])
@@ -735,7 +764,11 @@ def gen_plan(family: str, i: int, rng: random.Random, tier: str) -> dict:
         "version": version, "signed": signed, "key": key, "kek_seed": rng.randrange(1 << 20), "adv": adv, "pv": pv, "cv": pv if same_ver else gen_ver(rng),
         "build": rng.choice([0, 1, 0xFFFF, rng.randrange(1 << 32)]), "sha": rng.random() < 0.5, "sections": sections, "t0_us": rng.choice([0, rng.randrange(10**12)]), "ops": [],
     }
+    if rng.random() < 0.35:
+        plan["pre"] = [rng.choice(["str", "export", "export", "raw_size", "update"]) for _ in range(rng.randint(1, 3))]
     if family == "control":
+        if _depth == 0 and rng.random() < 0.2:
+            plan["prelude"] = gen_plan("control", i, rng, tier, _depth=1)
         return plan
     ops = plan["ops"]
     for _ in range(rng.randint(1, 6)):
@@ -768,6 +801,12 @@ def families(tier: str):
 
 
 def reductions(plan: dict):
+    if plan.get("prelude"):
+        c = copy.deepcopy(plan)
+        c.pop("prelude")
+        yield c
+    if plan.get("pre"):
+        yield from ddmin_lists(plan, [["pre"]])
     yield from ddmin_lists(plan, [["ops"]])
     if len(plan["sections"]) > 1:
         yield from ddmin_lists(plan, [["sections"]])
